@@ -125,4 +125,7 @@ var Registry = map[string]func(c *Ctx, arg string) error{
 	"keyfile": func(c *Ctx, arg string) error {
 		return RunKeyFile(c)
 	},
+	"config": func(c *Ctx, arg string) error {
+		return RunConfig(c)
+	},
 }
